@@ -24,8 +24,13 @@ S = z3.Select
 
 # ratio of two scale-only units and its integer powers (used only where the property speaks about
 # "each unit ratio raised to that unit's exponent")
-ratio = z3.Function("ratio", NameS, NameS, RealS)
-rpow = z3.Function("rpow", RealS, IntS, RealS)
+from .unit_database import ratio, scale_only
+from pyvc.engine import upow
+
+
+def rpow(r, e):
+    """r ** e for an integer exponent, as the (uninterpreted) real power function math.pow denotes"""
+    return upow(r, z3.ToReal(e))
 
 
 def Or(xs):
@@ -73,6 +78,11 @@ def needs_power(M):
     return Or([z3.And(x["found"], x["u"] != x["m"], x["e"] != 1) for x in M])
 
 
+def power_entries_scale_only(M):
+    """every re-expressed entry with an exponent other than 1 is between a scale-only pair of units"""
+    return And([z3.Implies(z3.And(x["found"], x["u"] != x["m"], x["e"] != 1), scale_only(x["u"], x["m"])) for x in M])
+
+
 def reexpress_code(st, M, v):
     """value after matching when every re-expressed entry has exponent 1 (or keeps its unit):
     the composition of the float conversions unit → matched unit, in entry order"""
@@ -90,7 +100,7 @@ def reexpress_spec(st, M, v, facts):
         conv = conv_term(st, x["u"], x["m"], v)
         r = ratio(x["u"], x["m"])
         powered = v * rpow(r, x["e"])
-        facts.append(z3.Implies(z3.And(x["found"], x["u"] != x["m"], x["e"] != 1), z3.And(r > 0, rpow(r, x["e"]) > 0, conv == v * r, (rpow(r, x["e"]) == r) == (r == 1))))
+        facts.append(z3.Implies(z3.And(x["found"], x["u"] != x["m"], x["e"] != 1, scale_only(x["u"], x["m"])), z3.And(r > 0, rpow(r, x["e"]) > 0, conv == v * r, (rpow(r, x["e"]) == r) == (r == 1))))
         v = z3.If(z3.And(x["found"], x["u"] != x["m"]), z3.If(x["e"] == 1, conv, powered), v)
     return v
 
@@ -206,11 +216,13 @@ class DbSameQuantitySpec(FunctionSpec):
 
     op = None  # "Sum" | "Subtract"
     props = ("C03", "C05", "C07", "C13", "C15")
-    callees = BASE_CALLEES
+    callees = BASE_CALLEES + (UDB + ":UnitDatabase._ConvertWithExp",)
     probe = "arith"
 
     def variants(self, tier):
-        return list(SHAPES_THOROUGH if tier == "thorough" else SHAPES_QUICK)
+        # two units on both sides (in either order) is where the compatibility test compares sets of
+        # (unit, exponent) pairs: part of the quick tier for + and -
+        return list(SHAPES_THOROUGH if tier == "thorough" else SHAPES_QUICK + [("derived2", "derived2")])
 
     def setup(self, I, variant):
         ka, kb = variant
@@ -282,7 +294,12 @@ def same_quantity_cases(I, ctx, opfn, pack, unpack):
 
     out = [ret("same-quantity", eq, props=("C03",), check=chk(None, None, opfn(v1.real(), v2.real()), identical=qa))]
     e1, e2 = len(E1) == 0, len(E2) == 0
-    ne = z3.Not(eq)
+    ne0 = z3.Not(eq)
+    # an entry re-expressed with an exponent other than 1 scales by the unit ratio raised to it; that
+    # reading exists for scale-only pairs only
+    lin = z3.And(power_entries_scale_only(M1), power_entries_scale_only(M2))
+    out.append(unspecified("exp-ne-1/not-scale-only", z3.And(ne0, pw, z3.Not(lin))))
+    ne = z3.And(ne0, z3.Implies(pw, lin))
     ok = z3.And(ne, deq)
     if E1 or not E2:
         # left operand's categories/exponents with the matched units (its own units when it is consistent)
@@ -290,11 +307,11 @@ def same_quantity_cases(I, ctx, opfn, pack, unpack):
         out.append(ret("matching-dimensions/exp-ne-1", z3.And(ok, pw), props=("C03",), check=chk(X1, cap1, opfn(spec1, spec2))))
     bad = z3.And(ne, z3.Not(deq))
     if e1 and not e2:
-        out.append(ret("left-dimensionless", bad, props=("C03", "C05"), check=chk(X2, cap2, opfn(code1, code2))))
+        out.append(ret("left-dimensionless", bad, props=("C03", "C05"), check=chk(X2, cap2, opfn(spec1, spec2))))
     elif e2 and not e1:
-        out.append(ret("right-dimensionless", bad, props=("C03", "C05"), check=chk(X1, cap1, opfn(code1, code2))))
+        out.append(ret("right-dimensionless", bad, props=("C03", "C05"), check=chk(X1, cap1, opfn(spec1, spec2))))
     elif e1 and e2:
-        out.append(ret("both-dimensionless", ne, props=("C03",), check=chk(X1, cap1, opfn(code1, code2))))
+        out.append(ret("both-dimensionless", ne, props=("C03",), check=chk(X1, cap1, opfn(spec1, spec2))))
     else:
         out.append(rai("different-dimensions", bad, "InvalidOperationError", props=("C05", "C03")))
     return out
@@ -318,7 +335,7 @@ class DbNewQuantitySpec(FunctionSpec):
 
     op = None
     props = ("C04", "C05", "C07", "C13", "C15")
-    callees = BASE_CALLEES
+    callees = BASE_CALLEES + (UDB + ":UnitDatabase._ConvertWithExp",)
     probe = "arith"
 
     def variants(self, tier):
@@ -393,13 +410,15 @@ def new_quantity_cases(I, ctx, opfn, minus, unpack, props=("C04",)):
         return f
 
     # the divisor is the second value as re-expressed by the matching step
-    zero_div = (code2 == 0) if minus else F
-    nz = z3.Not(zero_div)
-    out = []
+    lin = z3.And(power_entries_scale_only(M1), power_entries_scale_only(M2))
+    out = [unspecified("exp-ne-1/not-scale-only", z3.And(pw, z3.Not(lin)))]
+    live = z3.Implies(pw, lin)
+    zero_div = (spec2 == 0) if minus else F
+    nz = z3.And(live, z3.Not(zero_div))
     if minus:
-        out.append(rai("division-by-zero", zero_div, "ZeroDivisionError", props=props))
-    out.append(ret("result/exp1", z3.And(nz, z3.Not(pw)), props=props, check=chk(opfn(code1, code2))))
-    out.append(ret("result/exp-ne-1", z3.And(nz, pw), props=props, check=chk(opfn(spec1, spec2))))
+        out.append(rai("division-by-zero", z3.And(live, zero_div), "ZeroDivisionError", props=props, facts=lambda I: list(facts)))
+    out.append(ret("result/exp1", z3.And(nz, z3.Not(pw)), props=props, check=chk(opfn(code1, code2)), facts=lambda I: list(facts)))
+    out.append(ret("result/exp-ne-1", z3.And(nz, pw), props=props, check=chk(opfn(spec1, spec2)), facts=lambda I: list(facts)))
     return out
 
 
@@ -457,7 +476,7 @@ class ScalarBinopSpec(FunctionSpec):
     fq = SC + "._DoOperation"
     key = SC + "._DoOperation#operators"
     props = ("C03", "C04", "C05", "C09", "C13", "C07")
-    callees = BASE_CALLEES
+    callees = BASE_CALLEES + (UDB + ":UnitDatabase._ConvertWithExp",)
     probe = "arith"
 
     def variants(self, tier):
@@ -574,8 +593,33 @@ def eL(e, u):
 
 
 def lg_factor(M):
-    """ln of the factor the contract applies to an operand's value (every re-expressed entry has exponent 1)"""
+    """ln of the factor the contract applies to an operand's value: every re-expressed entry contributes
+    e * (L(u) - L(m)) (the unit ratio raised to the entry's exponent; the float conversion for e = 1)"""
+    return z3.Sum([z3.If(z3.And(x["found"], x["u"] != x["m"]), eL(x["e"], x["u"]) - eL(x["e"], x["m"]), z3.RealVal(0)) for x in M]) if M else z3.RealVal(0)
+
+
+def lg_factor_exp1(M):
+    """the factor of a matching step that converts with exponent 1 whatever the entry's exponent (the
+    defect repaired by f801d71): used only by the canary, which must be refutable"""
     return z3.Sum([z3.If(z3.And(x["found"], x["u"] != x["m"]), Lf(x["u"]) - Lf(x["m"]), z3.RealVal(0)) for x in M]) if M else z3.RealVal(0)
+
+
+def arith_lemma_canaries():
+    """[(name, hypotheses, goal)] that must NOT be provable: the magnitude lemmas with the exponent-blind factor"""
+    C_qt = z3.Const("C_qt", z3.ArraySort(NameS, NameS))
+    U_qt = z3.Const("U_qt", z3.ArraySort(NameS, NameS))
+    st = {"C_qt": C_qt}
+    E1, E2 = _sym_entries("a", 1), _sym_entries("b", 1)
+    M1, M2 = match_spec(st, E1, E2)
+    hyp = [z3.Select(U_qt, u) == z3.Select(C_qt, c) for c, u, e in E1 + E2]
+    merged = merged_spec(M1, M2, False)
+    res = z3.Sum([z3.If(r["kept"], eL(r["e"], r["m"]), z3.RealVal(0)) for r in merged])
+    prod = lg_factor_exp1(M1) + lg_factor_exp1(M2) + res == lg_scale_orig(M1) + lg_scale_orig(M2)
+    ssum = z3.And(lg_factor_exp1(M1) + lg_scale_matched(M1) == lg_scale_orig(M1), lg_factor_exp1(M2) + lg_scale_matched(M1) == lg_scale_orig(M2))
+    return [
+        ("canary[C04.magnitude-product/shape(1,1) with an exponent-blind matching factor]", hyp, prod),
+        ("canary[C03.physical-sum/shape(1,1) with an exponent-blind matching factor]", hyp + [dims_equal(M1, M2), normalised(M1), normalised(M2)], ssum),
+    ]
 
 
 def lg_scale_orig(M):
@@ -606,7 +650,6 @@ def arith_lemmas(max_n):
                     hyp.append(z3.Distinct(*[c for c, _, _ in E]))  # dict keys
                 for c, u, e in E:
                     hyp.append(z3.Select(U_qt, u) == z3.Select(C_qt, c))  # QI + W1: a unit has one quantity type
-            hyp.append(z3.Not(z3.Or(needs_power(M1), needs_power(M2))))
             tag = "shape(%d,%d)" % (n1, n2)
             # C03: with matching dimensions both operands' factors bring them to the left operand's matched units
             g1 = lg_factor(M1) + lg_scale_matched(M1) == lg_scale_orig(M1)
@@ -699,7 +742,9 @@ def same_quantity_summary(I, ctx, opfn):
     X1 = [(x["c"], x["m"], x["e"]) for x in M1]
     X2 = [(x["c"], x["m"], x["e"]) for x in M2]
     f_plain = lambda a, b: opfn(a, b)
-    f_conv = lambda a, b: opfn(reexpress_code(st, M1, a), reexpress_code(st, M2, b))
+    # the property's reading of the re-expression (the float conversions when every re-expressed entry
+    # has exponent 1; unit ratios raised to the exponents otherwise)
+    f_conv = lambda a, b: opfn(reexpress_spec(st, M1, a, []), reexpress_spec(st, M2, b, []))
 
     def mk(ents, cap, f, same=False):
         def build(I):
@@ -710,8 +755,9 @@ def same_quantity_summary(I, ctx, opfn):
 
     ne = z3.Not(eq)
     out = [ret("same-quantity", eq, mk(None, None, f_plain, same=True))]
-    out.append(unspecified("exp-ne-1", z3.And(ne, pw)))
-    ok = z3.And(ne, z3.Not(pw))
+    lin = z3.And(power_entries_scale_only(M1), power_entries_scale_only(M2))
+    out.append(unspecified("exp-ne-1/not-scale-only", z3.And(ne, pw, z3.Not(lin))))
+    ok = z3.And(ne, z3.Implies(pw, lin))
     e1, e2 = len(E1) == 0, len(E2) == 0
     if e1 and not e2:
         out.append(ret("left-dimensionless", ok, mk(X2, cap2, f_conv)))
@@ -732,7 +778,7 @@ def new_quantity_summary(I, ctx, opfn, minus):
     M1, M2 = match_spec(st, E1, E2)
     pw = z3.Or(needs_power(M1), needs_power(M2))
     merged = merged_spec(M1, M2, minus)
-    f_conv = lambda a, b: opfn(reexpress_code(st, M1, a), reexpress_code(st, M2, b))
+    f_conv = lambda a, b: opfn(reexpress_spec(st, M1, a, []), reexpress_spec(st, M2, b, []))
 
     def build(I):
         P = I.P
@@ -742,12 +788,13 @@ def new_quantity_summary(I, ctx, opfn, minus):
             P.ghost.setdefault("empty_quantity", q)
         return STuple([q, lift2(I, f_conv, v1, v2)])
 
-    out = [unspecified("exp-ne-1", pw)]
-    ok = z3.Not(pw)
+    lin = z3.And(power_entries_scale_only(M1), power_entries_scale_only(M2))
+    out = [unspecified("exp-ne-1/not-scale-only", z3.And(pw, z3.Not(lin)))]
+    ok = z3.Implies(pw, lin)
     if minus:
         if not (isinstance(v1, SNum) and isinstance(v2, SNum)):
             raise OutOfSubset("division of numpy arrays (zero elements give inf/nan, outside the real model)")
-        zero = reexpress_code(st, M2, v2.real()) == 0
+        zero = reexpress_spec(st, M2, v2.real(), []) == 0
         out.append(rai("division-by-zero", z3.And(ok, zero), "ZeroDivisionError"))
         ok = z3.And(ok, z3.Not(zero))
     out.append(ret("result", ok, build))
